@@ -51,6 +51,18 @@ CHECKS["C13"] = dict(
           "clause) on the schedules actually executed; scheduler timeouts only influence which schedules are realised."),
     design="3/C13", technique="TLA+ linearizability trace validation + model-generated schedules on real goroutines")
 
+CHECKS["C12"] = dict(
+    text=("GraphEdit.tla: editor state machine (create, connect, array connect/disconnect, values, names, descriptions, producers, "
+          "metadata, delete, continue-on-reloaded) with the contract of every operation and Save/Load as functions; TLC shows the "
+          "round-trip law holds with index-ordered dependency lists and fails with the lexicographic order of the pinned code at "
+          ">10 array inputs. TLC-generated histories (BFS from four preludes, 60-step simulation walks) and seeded random ones are "
+          "executed on a real generator.App; after every step the app is saved, loaded into a fresh App and saved again; "
+          "TraceGraphEdit judges Load, Reload (nodes, wiring incl. array order, values, names, producers, metadata), Artifacts, Resave "
+          "and checks the real graph against the model (vacuity guard). Shipped graph files go through load-save-load-save."),
+    note=("Trusted base: TLC; projection of the App via Instance.Schema() and parameter accessors; hook App.VerifGraph (build tag verif). "
+          "File/image parameters not exercised."),
+    design="3/C12", technique="TLA+ spec + TLC-generated edit histories replayed + TLC trace validation")
+
 NOT_APPLICABLE = []
 
 
@@ -85,7 +97,7 @@ def main():
             "guard": "verif",
             "enable": "go build -tags verif (harness module /verif/harness with replace => /repo)",
             "baseline_off_cmd": BASE_OFF,
-            "source_commits": [],
+            "source_commits": ["fc07cc2"],
             "add_only": True,
         },
         "engines": [
